@@ -7,9 +7,12 @@
                 `gain_always_carried`); implementation period computed by the mirror of `Soxr.Signal.implPeriod`
   measurement   on the REAL code, compared within 2^(1-bits) of full scale with the measured margin recorded:
                 superposition on random in-band and broadband signal pairs; io_spec.scale proportionality (powers of two:
-                bit-exactness counted); DC convergence; row sums of the measured rows; shift covariance at the
-                implementation period for broadband signals beyond the start-up horizon (bit-exactness counted) and at the
-                reduced period for in-band steady-state signals
+                bit-exactness counted; general and negative factors); a datatype pair with different full scales against the
+                float64 run; DC convergence; row sums of the measured rows; shift covariance per sample in max norm over
+                streams spanning >= 3.3 blocks of every dft stage: at the implementation period (1 and k periods) for
+                broadband signals beyond the start-up horizon (bit-exactness counted) and at the reduced period for in-band
+                steady-state signals
+  cases         one member of every (plan class, knob) pair of the covering pool (checks/_signal.py cover), ratio 1 with a gain
 """
 import math
 from fractions import Fraction
@@ -85,7 +88,7 @@ def job_c12(args):
             return {"cfg": c, "label": S.cfg_label(c), "skipped": "create failed: " + info["error"]}
         if not info.get("engine", "").startswith("cr") or S.bits_of(info) < 15:
             return {"cfg": c, "label": S.cfg_label(c), "skipped": "property does not speak (precision < 15 bits)"}
-        if S.f1_exact(info):
+        if S.f1_known(info):
             return {"cfg": c, "label": S.cfg_label(c), "skipped": "known finding F1 signature", "f1": True, "f1_linear": info["q"]["phase"] == 50}
         bits = S.bits_of(info)
         rg = np.random.default_rng(seed)
